@@ -23,7 +23,8 @@ func c09Itoa(n int) string {
 // VerifC09: the three dry-run routes (Output+dry-run as used by the CLI, Mkdir-from-Markdown+dry-run,
 // Mkdir-from-root+dry-run) on every forest of n rows with 0..2 opaque extensions: no file-system mutation; the
 // report is, per root, the plain tree text followed by "\n<d> directories, <f> files\n" where d and f are the
-// numbers of directories and files the real Mkdir then creates under that root in the same file-system model.
+// numbers of directories and files the real Mkdir then creates under that root in the same file-system model. The
+// target directory exists or not (solver's choice).
 func VerifC09() {
 	n := verifN()
 	lines, rows := wellFormedLines(n, verifName)
@@ -39,6 +40,10 @@ func VerifC09() {
 		verifAssume(len(roots) == 1)
 	}
 	vfsReset()
+	if verifFlag("notarget") {
+		// the target directory itself does not exist yet (a dry run must not make it either)
+		vfsRemoveTarget()
+	}
 	vfsSeal()
 	w := newVerifWriter()
 	color.Output = w
